@@ -91,7 +91,7 @@ def run_finders(names, timeout=1800):
                 txt = p.stdout + p.stderr
             except subprocess.TimeoutExpired:
                 txt = 'TIMEOUT'
-            res = dict(finder=name, cmd=' '.join(cmd), found=False, completed=False)
+            res = dict(finder=name, cmd=' '.join(cmd), found=False, completed=False, known=[ln[len('KNOWN '):] for ln in txt.splitlines() if ln.startswith('KNOWN ')])
             for ln in txt.splitlines():
                 if ln.startswith('WITNESS '):
                     res['found'] = True
